@@ -1,5 +1,7 @@
 """C10  Levinson and the Toeplitz/Hermitian solvers solve their equations."""
 import numpy as np
+
+import single
 from scipy.linalg import toeplitz as sp_toeplitz
 
 import proto
@@ -202,7 +204,10 @@ def _stage_errors(r):
     return out
 
 
+KINDS["single"] = single.kind("C10")
+
 def gen(rng, nrng, tier):
+    yield from single.gen("C10", nrng, tier)
     n_lev = 160 if tier == "quick" else 2500
     maxn = 24 if tier == "quick" else 40
     for i in range(n_lev):
